@@ -85,6 +85,7 @@ type Task struct {
 	panicStk string
 
 	// controller-owned
+	prio     int         // scheduling priority (PCT runs); 0 = not yet assigned
 	held     map[any]int // modelled locks held: key -> count (readers counted)
 	signaled bool        // cond waiter that has been signalled
 	parkStep int
@@ -140,6 +141,10 @@ type Sim struct {
 	viol    *Violation
 	probes  map[string]int
 
+	pct      bool  // priority scheduling in this run
+	lowPrio  int   // next "lowest" priority (negative, decreasing)
+	stick    int   // percent
+	last     *Task // task released by the previous decision
 	mainDone bool
 	horizon  bool
 	deadInc  [64]bool // incarnations that have "crashed" (plain array: read by tasks)
@@ -208,6 +213,15 @@ func Run(cfg Config, main func(ctx context.Context)) *Result {
 		s.tape = NewTape(1, nil)
 	}
 	s.rootCtx, s.cancel = context.WithCancel(context.Background())
+	if !cfg.PassThrough {
+		// scheduling policy of this run: uniform random, sticky, or priority based
+		switch m := s.tape.Draw(10); {
+		case m < 3:
+			s.pct = true
+		default:
+			s.stick = []int{0, 0, 0, 50, 85, 97, 97}[m-3]
+		}
+	}
 	cur = s
 	defer func() { cur = nil }()
 
@@ -416,9 +430,26 @@ func (s *Sim) grantable(t *Task, kind int, key any, aux any, ts []*Task) bool {
 	return false
 }
 
+// flushDueTimers lets every timer that is already due fire before the next decision is taken.
+// Inside a synctest bubble timers only fire once every goroutine is blocked; without this a
+// zero-delay timer (a job whose time has come, time.After(0), an already expired context) would
+// not fire until every runnable task had run dry, which would make "the timer path starts right
+// away, concurrently with its creator" unreachable.  The controller's own zero timer keeps the
+// clock from advancing: it is due now as well.
+func (s *Sim) flushDueTimers() {
+	// a channel, not the controller's cond: tasks woken by due timers signal the cond when they park,
+	// and a wake-up of the controller between its check and its wait would lose the timer's own signal
+	ch := make(chan struct{})
+	tm := time.AfterFunc(0, func() { close(ch) })
+	<-ch
+	tm.Stop()
+	synctest.Wait()
+}
+
 func (s *Sim) loop() {
 	for {
 		synctest.Wait()
+		s.flushDueTimers()
 		ts := s.snapshot()
 		// notes first (unlock/signal), in task order
 		for _, t := range ts {
@@ -491,12 +522,47 @@ func (s *Sim) loop() {
 		sort.Slice(en, func(i, j int) bool { return en[i].Seq < en[j].Seq })
 		idx := 0
 		if len(en) > 1 {
-			if !s.cfg.PassThrough {
-				idx = s.tape.Draw(len(en))
+			if !s.cfg.PassThrough && s.pct {
+				// Priority scheduling (PCT-like): every task has a random priority, the enabled task of highest
+				// priority runs, and at rare change points the running task drops to the lowest priority.
+				// A task of low priority is thereby starved for as long as anything else can run.
+				best := -1
+				for i, c := range en {
+					if c.prio == 0 {
+						c.prio = 1 + s.tape.Draw(1<<20)
+					}
+					if best < 0 || c.prio > en[best].prio {
+						best = i
+					}
+				}
+				idx = best
+				if s.tape.Draw(100) < 3 {
+					s.lowPrio--
+					en[idx].prio = s.lowPrio
+				}
+			} else if !s.cfg.PassThrough {
+				// Stickiness (drawn once per run): with that probability the task that ran last keeps
+				// running while it is enabled, so that some runs let one goroutine race far ahead of the
+				// others ("slow goroutine" schedules) instead of interleaving everybody finely.
+				stuck := false
+				if s.stick > 0 && s.last != nil {
+					for i, c := range en {
+						if c == s.last {
+							if s.tape.Draw(100) < s.stick {
+								idx, stuck = i, true
+							}
+							break
+						}
+					}
+				}
+				if !stuck {
+					idx = s.tape.Draw(len(en))
+				}
 			}
 			s.nchoice++
 		}
 		t := en[idx]
+		s.last = t
 		s.step++
 		s.ndec++
 		_, _, kind, key, site, aux, _ := t.view()
